@@ -213,6 +213,14 @@ class ExpImpl:
                 p = self.agents[int(w[1])].position  # whatever the getter hands out
                 p[int(w[2])] = int(w[3]) / U
                 return "ok"
+            if k == "raw":
+                sp.agent_positions[int(w[1])] = self.pt(w[2:])
+                return "ok"
+            if k == "compat":
+                if int(w[1]) not in self.agents:
+                    return "ok"  # no such object: nothing to call
+                self.agents[int(w[1])].pos = self.pt(w[2:])
+                return "ok"
             if k == "get":
                 return "ok pos=" + ",".join(to_units(v) for v in self.agents[int(w[1])].position.copy())
             if k == "remove":
@@ -447,8 +455,16 @@ def oracle(sc, obs):
                         bad.append(f"reject-valid: {line} -> {o}")
                     else:
                         sp.pos[a] = v
-            elif k == "poke":
-                pass  # a write into what the getter returned is not an assignment: judged by the next `get`
+            elif k in ("poke", "compat"):
+                pass  # a write into what the getter returned / the ignored `pos` setter is not an assignment: judged by the next `get`
+            elif k == "raw":
+                # a write through the public view lands, unvalidated, in the row of the i-th agent of space.agents
+                i, p = int(w[1]), tuple(map(int, w[2:]))
+                if i < len(sp.order):
+                    if o != "ok":
+                        bad.append(f"reject-valid: {line} -> {o}")
+                    else:
+                        sp.pos[sp.order[i]] = p
             elif k == "remove":
                 a = int(w[1])
                 if a in sp.pos:
@@ -736,7 +752,20 @@ class Gen:
             self.emit(f"get {a}")
             if R.random() < 0.3:
                 self.emit(f"radius {self.fmt(self.inside_point())} {R.choice([64, 200, 1000])}")
-        elif k < 0.49 and self.removed:
+        elif k < 0.478:
+            # user writes that do not go through the position setter
+            if R.random() < 0.6:
+                i = R.randrange(n) if R.random() < 0.9 else n
+                p = self.inside_point() if R.random() < 0.75 else self.point(0.5)
+                self.emit(f"raw {i} {self.fmt(p)}")
+                if i < n:
+                    sp.pos[sp.order[i]] = tuple(p)
+                    self.emit(f"get {sp.order[i]}")
+            else:
+                a = self.member() if R.random() < 0.8 or not self.removed else R.choice(self.removed)
+                self.emit(f"compat {a} {self.fmt(self.point(0.3))}")
+                self.emit(f"get {a}")
+        elif k < 0.495 and self.removed:
             # life cycle: calls on an agent object after its remove()
             a = R.choice(self.removed)
             self.emit(R.choice([f"get {a}", f"set {a} {self.fmt(self.point(0.2))}", f"remove {a}", f"nir {a} 64", f"nn {a} 1",
@@ -744,7 +773,7 @@ class Gen:
                                 f"dists {self.fmt(self.inside_point())} : {a}", f"diffs {self.fmt(self.inside_point())} : {a}"]))
             if R.random() < 0.5:
                 self.emit(R.choice(["agents", f"radius {self.fmt(self.inside_point())} 200"]))
-        elif k < 0.53:
+        elif k < 0.535:
             a = self.member()
             self.emit(f"remove {a}")
             del sp.pos[a]
